@@ -173,26 +173,78 @@ def mergeTrees (mf : List ν → Option ν) (dflt : ν) : (r : Nat) → List (Tr
         (unionAll (xs.map (fun x => present dflt r x)))).map
         (fun l => show List (κ × Tree κ ν r) from l)
 
+/-- the second half of `_mergeRanksHelper` (fiber.py:4300-4327) on what the payload fibers
+    present: group by new coordinate, merge every group -/
+def mergeRows (comb : κ → κ → κ) (mf : List ν → Option ν) (dflt : ν) (r : Nat)
+    (rows : Fib κ (Fib κ (Tree κ ν r))) : Option (Tree κ ν (r + 1)) :=
+  (mapM? (fun row => (mergeTrees mf dflt r row.2).map (fun t => (row.1, t))) (gather comb rows)).map
+    (fun l => show List (κ × Tree κ ν r) from l)
+
 /-- `_mergeRanksHelper(levels=1)`: the top two ranks of a tree of depth `r+2` become one -/
 def merge2 (comb : κ → κ → κ) (mf : List ν → Option ν) (dflt : ν) (r : Nat)
     (f : Tree κ ν (r + 2)) : Option (Tree κ ν (r + 1)) :=
-  (mapM? (fun row => (mergeTrees mf dflt r row.2).map (fun t => (row.1, t)))
-    (gather comb ((show List (κ × Tree κ ν (r + 1)) from f).map
-      (fun e => (e.1, present dflt r e.2))))).map
-    (fun l => show List (κ × Tree κ ν r) from l)
+  mergeRows comb mf dflt r
+    ((show List (κ × Tree κ ν (r + 1)) from f).map (fun e => (e.1, present dflt r e.2)))
+
+/-- The fiber `_mergeRanksHelper` returns takes its default and its shape from the *last*
+    payload fiber it looked at (`default = p1.getDefault()`, `low_shape = p1.getShape(..)`,
+    fiber.py:4310-4312) and falls back to `Payload(0)` / `None` when there was none.  `lastOk`:
+    the attributes of the merged fiber are the real ones (those of the lowest merged rank). -/
+def lastOk (r : Nat) : (l : Nat) → Tree κ ν (r + 2 + l) → Bool
+  | 0, f => !(show List (κ × Tree κ ν (r + 1)) from f).isEmpty
+  | l + 1, f =>
+    match (show List (κ × Tree κ ν (r + 2 + l)) from f).getLast? with
+    | none => false
+    | some e => lastOk r l e.2
+
+/-- the default iteration over a merged payload fiber uses to skip empty elements: leaves are
+    compared with the merged fiber's own default (`z` = `Payload(0)` when `lastOk` fails);
+    sub-fibers are asked `isEmpty()` themselves -/
+def presDefault (z dflt : ν) (r : Nat) (ok : Bool) : ν :=
+  match r with
+  | 0 => if ok then dflt else z
+  | _ => dflt
 
 /-- `_mergeRanksHelper(levels = l+1)`: deeper levels first (on every stored payload), then the
     top two.  `comb l` combines the top coordinate with the already merged one below when `l`
-    levels were merged below (the linear style needs the product of the lower shapes).
-    The `elif not self.coords` shortcut is the `[]` instance of the general path. -/
-def mergeLv (comb : Nat → κ → κ → κ) (mf : List ν → Option ν) (dflt : ν) (r : Nat) :
+    levels were merged below (the linear style needs the product of the lower shapes); with
+    `lin` (linear style) a merged payload fiber that has elements but no shape makes
+    `_flattenCoords` assert.  The `elif not self.coords` shortcut is the `[]` instance of the
+    general path. -/
+def mergeLv (lin : Bool) (z : ν) (comb : Nat → κ → κ → κ) (mf : List ν → Option ν) (dflt : ν) (r : Nat) :
     (l : Nat) → Tree κ ν (r + 2 + l) → Option (Tree κ ν (r + 1))
   | 0, f => merge2 (comb 0) mf dflt r f
   | l + 1, f =>
-    match mapM? (fun e => (mergeLv comb mf dflt r l e.2).map (fun t => (e.1, t)))
+    match mapM? (fun e => (mergeLv lin z comb mf dflt r l e.2).bind (fun t =>
+              let ok := lastOk r l e.2
+              let pr := present (presDefault z dflt r ok) r t
+              if lin && !ok && !pr.isEmpty then none else some (e.1, pr)))
             (show List (κ × Tree κ ν (r + 2 + l)) from f) with
     | none => none
-    | some subs => merge2 (comb (l + 1)) mf dflt r (show List (κ × Tree κ ν (r + 1)) from subs)
+    | some rows => mergeRows (comb (l + 1)) mf dflt r rows
+
+/-- The active range `_mergeRanksHelper` computes for its result with the tuple / pair styles
+    (fiber.py:4304-4308, 4353-4354) is `((start, range_start), (end, range_end))` where
+    `range_start` is the minimum of the active starts of the (already merged) payloads, or `0` when
+    there is none.  With two or more levels still to merge below, a payload without elements has
+    `(0, 0)` where a payload with elements has `(0, (0, …))`: `min()` then compares an `int` with a
+    `tuple` and raises `TypeError`.  `actNest` is the nesting depth of that start, `none` = raised. -/
+def actNest (r : Nat) : (l : Nat) → Tree κ ν (r + 2 + l) → Option Nat
+  | 0, _ => some 1
+  | l + 1, f =>
+    match (show List (κ × Tree κ ν (r + 2 + l)) from f) with
+    | [] => some 1
+    | e :: rest =>
+      match actNest r l e.2 with
+      | none => none
+      | some d =>
+        if rest.all (fun e' => actNest r l e'.2 == some d) then some (d + 1) else none
+
+/-- `_mergeRanksHelper` as it runs: the data path `mergeLv`, unless the active-range bookkeeping
+    of the tuple / pair styles raises first (`tup` = the style is tuple or pair) -/
+def mergeLvA (tup lin : Bool) (z : ν) (comb : Nat → κ → κ → κ) (mf : List ν → Option ν) (dflt : ν)
+    (r l : Nat) (f : Tree κ ν (r + 2 + l)) : Option (Tree κ ν (r + 1)) :=
+  if tup && (actNest r l f).isNone then none else mergeLv lin z comb mf dflt r l f
 
 /-- `updatePayloads(func, depth=k-1)` as used by every `…Below` form and by
     `mergeRanks(depth=k)`: recurse over all stored payloads down to depth `k` and replace every
@@ -318,10 +370,17 @@ def unflattenT (hd tl : κ → κ) (dflt : ν) (r l k : Nat)
     some (defaultTree dflt (r + 2 + l + k))
   else atDepth (unflatLv hd tl r l) k t
 
+/-- `_unflattenRankIdsShape` subscripts the shape of rank `k`; without a declared shape the
+    estimate of a rank that holds no coordinate at all is the integer `0` → `TypeError` -/
+def unflattenTS (declared : Bool) (hd tl : κ → κ) (dflt : ν) (r l k : Nat)
+    (t : Tree κ ν (r + 1 + k)) : Option (Tree κ ν (r + 2 + l + k)) :=
+  if !declared && (fibersAt r k t).all (fun f => (show List (κ × Tree κ ν r) from f).isEmpty) then none
+  else unflattenT hd tl dflt r l k t
+
 /-- `Tensor.flattenRanks / mergeRanks(depth=k, levels=l+1)` -/
-def mergeT (comb : Nat → κ → κ → κ) (mf : List ν → Option ν) (dflt : ν) (r l k : Nat)
-    (t : Tree κ ν (r + 2 + l + k)) : Option (Tree κ ν (r + 1 + k)) :=
-  atDepth (mergeLv comb mf dflt r l) k t
+def mergeT (tup lin : Bool) (z : ν) (comb : Nat → κ → κ → κ) (mf : List ν → Option ν) (dflt : ν)
+    (r l k : Nat) (t : Tree κ ν (r + 2 + l + k)) : Option (Tree κ ν (r + 1 + k)) :=
+  atDepth (mergeLvA tup lin z comb mf dflt r l) k t
 
 end merge
 
